@@ -11,12 +11,13 @@ class S(vlib.Spec):
     props_file = "Props/C17.v"
     harness_pkg = "./cmd/c17"
     harness_name = "c17"
-    corr_codes = {1, 5, 6, 8, 9}
+    corr_codes = {1, 5, 6, 8, 9, 30}
     code_names = {
         1: "tokens of the model's dump differ from the tokens of the text DumpIDL wrote",
         5: "the re-parsed AST differs from dump_view (up to comments)",
         6: "parser model and real parser disagree on the dumped text",
         8: "fmt_ok fails on a double text strconv produced",
+        30: "the file of the re-read dumped tree differs from relink a (dump_view a), the file of dumped_program",
         2: "DumpIDL failed or the trimmer did not write the file",
         3: "the parser rejects the dumped text",
         4: "an AST with nothing to print is dumped as the empty text, which the parser rejects (fixed by 6a3edb3)",
@@ -32,7 +33,7 @@ class S(vlib.Spec):
     modelled = ("tool/trimmer/dump/dump.go: DumpIDL, typeName, printAnnotation, printComment, printStruct, printField, "
                 "printConstTypedValue, quoteLiteral/quoteWith -> coq/Idl/Dump.v (dump, dump_view); the parser side is "
                 "coq/Idl/Lex.v + Idl/Parse.v (property C03); hand-written, tied by correspondence on every run: token "
-                "stream of the dumped text, re-parsed AST against dump_view, parser model against the real parser")
+                "stream of the dumped text, re-parsed AST against dump_view, parser model against the real parser, the file the recursive parser returns for the dumped tree against dumped_program")
     trusted_base = [
         "hand-written model coq/Idl/Dump.v (mirrors DumpIDL statement by statement, including white space)",
         "parser model coq/Idl/Lex.v, Idl/Parse.v (owned by C03; every C17 case re-checks it against parser.ParseString on the dumped text)",
